@@ -24,7 +24,7 @@ func init() {
 	ev.Register(&ev.Check{
 		ID:          "C19c",
 		Level:       "model_checking",
-		Rule:        "controlled-scheduler exploration of the real ASTNodes, RuleASTNodes and Constraints maps: 2 threads x 2 operations (ALL 4-tuples over a 9-operation alphabet: Set(a,1), Set(b,2), Delete(a), Update(a), Filter(drop odd), Map(swap), Get(a), Len, Each) and 3 threads x 1 operation (all triples), from the empty and from a two-entry initial state, ALL interleavings at lock points (unbounded preemptions: executions are short); every complete history must be linearizable w.r.t. the reference insertion-ordered map (brute force over all orders consistent with program order) and the race monitor must stay silent.",
+		Rule:        "controlled-scheduler exploration of the real ASTNodes, RuleASTNodes and Constraints maps: 2 threads x 2 operations (ALL 4-tuples over a 10-operation alphabet: Set(a,1), Set(b,2), Delete(a), Update(a), Filter(drop odd), Map(swap), Get(a), Len, MarshalJSON, Each) and 3 threads x 1 operation (all triples), from the empty and from a two-entry initial state, ALL interleavings at lock points (unbounded preemptions: executions are short); every complete history must be linearizable w.r.t. the reference insertion-ordered map (brute force over all orders consistent with program order) and the race monitor must stay silent.",
 		Workers:     func(string) int { return 16 },
 		Run:         run,
 		Replay:      func(stdjson.RawMessage) (bool, string) { return false, "re-run ./check C19 quick" },
@@ -43,6 +43,7 @@ type cmap interface {
 	Get(k int) (int, bool)
 	Len() int
 	Each(f func(k, v int))
+	JSON() []byte
 }
 
 var keyNames = []string{"a", "b", "c"}
@@ -80,6 +81,10 @@ func (a astM) Len() int              { return a.m.Len() }
 func (a astM) Each(f func(k, v int)) {
 	a.m.EachSafe(func(k string, v jschema.ASTNode) { f(kidx(k), aid(v)) })
 }
+
+func (a astM) JSON() []byte  { b, _ := a.m.MarshalJSON(); return b }
+func (a ruleM) JSON() []byte { b, _ := a.m.MarshalJSON(); return b }
+func (a consM) JSON() []byte { b, _ := a.m.MarshalJSON(); return b }
 
 type ruleM struct{ m *jschema.RuleASTNodes }
 
@@ -168,6 +173,18 @@ var opsList = []opT{
 		func(r *orderedmap.Map) string { r.Map(func(k, v int) (int, bool) { return swap(v), true }); return "" }},
 	{"Get(a)", func(m cmap) string { v, ok := m.Get(0); return fmt.Sprint(v, ok) }, func(r *orderedmap.Map) string { v, ok := r.Get(0); return fmt.Sprint(v, ok) }},
 	{"Len", func(m cmap) string { return fmt.Sprint(m.Len()) }, func(r *orderedmap.Map) string { return fmt.Sprint(r.Len()) }},
+	{"MarshalJSON", func(m cmap) string {
+		// the bytes are read after the call returned: a result that aliases
+		// shared memory is a race with the next marshalling
+		b := m.JSON()
+		n := 0
+		for _, c := range b {
+			if c == '{' || c == '}' {
+				n++
+			}
+		}
+		return fmt.Sprint(n >= 2)
+	}, func(r *orderedmap.Map) string { return "true" }},
 	{"Each", func(m cmap) string {
 		var s []string
 		m.Each(func(k, v int) { s = append(s, fmt.Sprintf("%d=%d", k, v)) })
@@ -204,7 +221,7 @@ func linearizable(init [][2]int, plan [][]int, results [][]string, final string)
 	var rec func(r *orderedmap.Map, done int) bool
 	rec = func(r *orderedmap.Map, done int) bool {
 		if done == total {
-			return opsList[8].ref(r) == final
+			return opsList[len(opsList)-1].ref(r) == final
 		}
 		for t := range plan {
 			if pos[t] >= len(plan[t]) {
@@ -287,7 +304,7 @@ func run(c *ev.Ctx) {
 						})
 					}
 					return bodies, func(*shim.Execution) string {
-						final = opsList[8].impl(m)
+						final = opsList[len(opsList)-1].impl(m)
 						if !linearizable(init, plan, results, final) {
 							return fmt.Sprintf("history is not linearizable: results %q, final state [%s]", results, final)
 						}
